@@ -274,6 +274,7 @@ def oracle(ctx, volume=1):
                         ctx.violate("C16/conditionalize/joint", f"joint != marginal x conditional for shape {sh} given {idxs}={vals}", rep)
                     # tuple access agrees with the serial layout
     ensembles(ctx, volume)
+    projective_ensembles(ctx)
 
 
 def ensembles(ctx, volume=1):
@@ -329,6 +330,45 @@ def ensembles(ctx, volume=1):
         if not ok:
             ctx.violate("C16/ensemble/layout", f"ensemble of {m1}- then {m2}-outcome measurement: states/probabilities not laid out as (earlier, later) "
                         f"(reported shapes {tuple(e1.prob_dist.shape)}, {tuple(e2.prob_dist.shape)})", rep)
+
+
+def projective_ensembles(ctx):
+    """repeated / coarse-after-fine projective measurements: some second-measurement branches have exactly zero probability and the
+    branch weights are unequal, so the eps_zero truncation + renormalisation path of every branch is exercised"""
+    import qobj
+    from quara.objects.operators import compose_qoperations
+    from quara.objects.mprocess import MProcess
+    g = ctx.npgen(5)
+    for kind, names in (("qubit", (0,)), ("qutrit", (0,))):
+        c_sys = qobj.csys(kind, names)
+        d = c_sys.dim
+        for t in range(3 if ctx.quick else 12):
+            u = qobj.rand_unitary(g, d) if t % 3 == 2 else np.eye(d)
+            pops = g.dirichlet(np.ones(d)) * 0.9 + 0.1 / d
+            a = np.sqrt(pops) * np.exp(1j * g.uniform(0, 2 * np.pi, d))
+            rho = 0.7 * np.outer(a, a.conj()) + 0.3 * np.diag(pops)          # populations `pops` in the computational basis
+            rho = u @ rho @ u.conj().T
+            fine = [[u @ np.diag((np.arange(d) == i).astype(float)) @ u.conj().T] for i in range(d)]
+            coarse = [[fine[0][0]], [sum(f[0] for f in fine[1:])]]
+            for K1, K2, tag in ((fine, fine, "fine-fine"), (fine, coarse, "fine-coarse"), (coarse, fine, "coarse-fine")):
+                rep = {"kind": "projective", "system": kind, "t": t, "tag": tag, "seed": ctx.seed}
+                try:
+                    M1 = MProcess(c_sys, [qobj.hs_of_kraus(c_sys, ks) for ks in K1])
+                    M2 = MProcess(c_sys, [qobj.hs_of_kraus(c_sys, ks) for ks in K2])
+                    st = qobj.State(c_sys, qobj.vec_of(c_sys, rho))
+                    e2 = compose_qoperations(M2, compose_qoperations(M1, st))
+                    ok = tuple(e2.prob_dist.shape) == (len(K1), len(K2))
+                    for i, k1 in enumerate(K1):
+                        r1 = k1[0] @ rho @ k1[0].conj().T
+                        for j, k2 in enumerate(K2):
+                            r2 = k2[0] @ r1 @ k2[0].conj().T
+                            ok = ok and abs(e2.prob_dist[(i, j)] - np.trace(r2).real) < 1e-7
+                except Exception as e:  # noqa
+                    ok = False
+                ctx.case(("proj-ens", kind, t, tag), sample={"op": "projective-ensemble", "system": kind, "tag": tag})
+                if not ok:
+                    ctx.violate("C16/ensemble/projective/joint", f"{kind} {tag}: joint distribution of two projective measurements is not p(i)·p(j|i) "
+                                "(zero-probability branches / unequal branch weights)", rep)
 
 
 def _ensemble_ok(e1, e2, K1, K2, rho, m1, m2):
